@@ -26,6 +26,12 @@ func init() {
 	registerGoLite(glGroup{id: "golitec05", out: "GoLiteC05.v", pkgDir: "bucketteer",
 		funcs: append([]glFunc{{name: "prefixToUint16"}, {name: "uint16ToPrefix"}}, btFuncs...)})
 	registerGoLite(glGroup{id: "golitelc05", out: "GoLiteLC05.v", pkgDir: "deprecated/bucketteer", funcs: btFuncs})
+	// the positioned-read helpers (short read = error, complete read = success even with io.EOF)
+	rdFuncs := []glFunc{{name: "readFullAt"}, {name: "readUint64Le"}}
+	rdExt := []string{"io.ReaderAt.ReadAt:out0"}
+	registerGoLite(glGroup{id: "goliterdc05", out: "GoLiteRdC05.v", pkgDir: "bucketteer", funcs: rdFuncs, externs: rdExt})
+	registerGoLite(glGroup{id: "goliterdlc05", out: "GoLiteRdLC05.v", pkgDir: "deprecated/bucketteer", funcs: rdFuncs, externs: rdExt})
+	registerGoLite(glGroup{id: "goliterdmain", out: "GoLiteRdMain.v", pkgDir: ".", funcs: []glFunc{{name: "readFullAt"}}, externs: rdExt})
 
 	registerGoLite(glGroup{id: "golitec01", out: "GoLiteC01.v", pkgDir: "indexes",
 		funcs: []glFunc{
